@@ -276,7 +276,7 @@ def leafwise(ctx, rule, construct_base, where, vals, pred, detail, max_report=4,
 
 
 # ---------------------------------------------------------------------------- C03 rules
-def check_grid(ctx, R, rules=("R1", "R2", "R3", "R4", "R5"), prefix=()):
+def check_grid(ctx, R, rules=("R1", "R2", "R3", "R4", "R5", "R6"), prefix=()):
     key = R.key; fn = R.repo.get(key); where = R.repo.where(key, fn)
     ctx.analysed(key)
     if not isinstance(R.out, DictVal):
@@ -298,6 +298,14 @@ def check_grid(ctx, R, rules=("R1", "R2", "R3", "R4", "R5"), prefix=()):
     if "R1" in rules:
         leafwise(ctx, "R1-resolution-matches-length", f"{key}[r*L]", where, [r, L], eqp(lambda r_, l_: (to_x(r_) * to_x(l_), fs)),
                  "stored resolution times stored segment length must equal fs", prefix=prefix)
+    if "R6" in rules:
+        # the segment length is the integer NEAREST to fs/r: truncation (int(), floor) lets f*L/fs fall below bmin by a full unit instead of half
+        def nearest_only(l_, path=None):
+            lx = to_x(l_)
+            bad = [a for a in lx.all_atoms() if a.tag == "fn" and a.name in ("trunc", "floor", "ceil")]
+            if bad: return VIOLATED, f"the stored length is {bad[0].name}(...) of the ideal length: a one-sided rounding, not the nearest integer", lx, None
+            return HOLDS, "", lx, None
+        leafwise(ctx, "R6-length-rounding", f"{key}[L rounding]", where, [L], nearest_only, "L is the integer nearest to fs/r", prefix=prefix)
     if "R5" in rules:
         leafwise(ctx, "R5-bin-number", f"{key}[b]", where, [b, f, r], eqp(lambda b_, f_, r_: (to_x(b_), to_x(f_) / to_x(r_))), "reported bin number must be f/r", prefix=prefix)
         if F["m"] is not None:
